@@ -92,7 +92,14 @@ def monitor(hdr, ev):
             if nxt and nxt[1] != -1: out.append(("stop", "frame after xmp_stop_module returned %d" % nxt[1]))
         elif op == "RS":
             e0 = entry[before["seq"]]
-            if nxt and not cur_on_end_marker and xxo[e0] < npat and (nxt[1] != 0 or tuple(nxt[3][:3]) != (e0, 0, 0) or nxt[3][4] != 0):
+            # the loop count is 0 at the call for every module; the frame after also reports 0 under the hypothesis of restart_lands
+            # (the scan's end point of the sequence was counted at least once and lies at or after the entry point): a module whose
+            # scan overflowed its row counter (scan.c: "a scan count of 0 will help break this loop in playback", storlek_11.it)
+            # counts a loop on the first row of every pass, at a fresh start as well as after a restart
+            hyp = hdr["scannum"][before["seq"]] >= 1 and hdr["scanord"][before["seq"]] >= e0
+            if after["loop"] != 0:
+                out.append(("restart", "xmp_restart_module left loop count %d" % after["loop"]))
+            if nxt and not cur_on_end_marker and xxo[e0] < npat and (nxt[1] != 0 or tuple(nxt[3][:3]) != (e0, 0, 0) or (hyp and nxt[3][4] != 0)):
                 out.append(("restart", "frame after xmp_restart_module: ret %d pos %d row %d frame %d loop %d (sequence entry %d)" % ((nxt[1],) + tuple(nxt[3][:3]) + (nxt[3][4], e0))))
         elif op in ("NX", "PV") and idle:
             o = before["ord"]; sq = before["seq"]; t = o + (1 if op == "NX" else -1)
